@@ -54,7 +54,9 @@ func render(v any) outcome {
 	}
 	b, err := json.Marshal(v)
 	if err != nil {
-		return outcome{Kind: "val", Val: fmt.Sprintf("%v", v)}
+		// e.g. a map with non-string keys: Go syntax (keys sorted by fmt), which tells an int key from
+		// a string key spelled the same
+		return outcome{Kind: "val", Val: fmt.Sprintf("%#v", v)}
 	}
 	return outcome{Kind: "val", Val: string(b)}
 }
@@ -408,7 +410,25 @@ func registerTypes() {
 	for id := first; id < len(types); id++ {
 		hard = append(hard, id)
 	}
+	// result types for maps with keys that are not strings (ordinary YAML: `ports: {80: http}`)
+	firstNSK := len(types)
+	reg(map[int]string{7: "d"})
+	reg(map[bool]string{true: "d"})
+	reg(map[float64]string{0.5: "d"})
+	reg(map[int]any{7: "d"})
+	reg(map[any]any{"d": 7})
+	for id := firstNSK; id < len(types); id++ {
+		nskTypes = append(nskTypes, id)
+	}
 }
+
+// maps with non-string keys: yaml decodes them as map[any]any.  A dotted key cannot walk through
+// such a map (ports.80 is "not found"), the map itself can be requested as map[int]T, map[bool]T,
+// map[string]T or any — and a request below it must not change what a request for it returns.
+var nskTypes []int
+var nskParents = []string{"ports", "flags", "ratio", "mixed", "deepn.p", "deepn"}
+var nskThrough = []string{"ports.80", "ports.443", "ports.invalid", "flags.true", "flags.false", "ratio.1.5", "mixed.a", "mixed.2",
+	"deepn.p.1", "deepn.p.1.k"}
 
 // ---------------------------------------------------------------- document and keys
 
@@ -425,6 +445,9 @@ func buildDoc(r *rand.Rand) (text []byte, keys []string, pairs []suffixPair) {
 		"m": map[string]any{"x": 1, "y": 2}, "ms": map[string]any{"p": "q"}, "me": map[string]any{},
 		"st": map[string]any{"a": 1, "b": "two", "d": "3s", "s": "hello", "x": 5}, "d": "1m30s", "di": 5,
 		"w": map[string]any{"s": "hello"}, "wn": map[string]any{"s": nil}, "dup": map[string]any{"x": 5},
+		"ports": map[any]any{80: "http", 443: "https"}, "flags": map[any]any{true: "on", false: "off"},
+		"ratio": map[any]any{1.5: "x", 2.5: "y"}, "mixed": map[any]any{"a": "1", 2: "two"},
+		"deepn":  map[string]any{"p": map[any]any{1: map[string]any{"k": "v"}, 2: "w"}},
 		"deep":   map[string]any{"a": map[string]any{"b": map[string]any{"c": 7, "cu": 8}}},
 		"k<nil>": 4, "k": 5, "x[]": 6, "x": 7, "p*": 8, "p": 9,
 	}
@@ -471,6 +494,8 @@ func buildDoc(r *rand.Rand) (text []byte, keys []string, pairs []suffixPair) {
 	for k := range doc {
 		keys = append(keys, k)
 	}
+	keys = append(keys, nskThrough...)
+	keys = append(keys, "deepn.p")
 	keys = append(keys, "m.x", "m.y", "ms.p", "st.a", "st.b", "st.s", "w.s", "deep.a.b.c", "deep.a.b.cu", "deep.a", "nope", "m.nope", "a.b", "")
 	sort.Strings(keys)
 	return text, keys, pairs
@@ -652,6 +677,32 @@ func randomRequest(r *rand.Rand, keys []string, pairs []suffixPair, recent []req
 			return []request{q, {opNames[r.IntN(len(opNames))], keys[r.IntN(len(keys))], r.IntN(len(types))}}
 		}
 		return []request{q}
+	case x >= 88:
+		// a request for a path THROUGH a map with non-string keys and requests for the map itself
+		// (typed by its key type, as map[string]T, as any), in either order, sometimes repeated
+		anyT := tyByName("<nil>")
+		par := nskParents[r.IntN(len(nskParents))]
+		thr := nskThrough[r.IntN(len(nskThrough))]
+		if r.IntN(3) > 0 { // mostly a path below that very map
+			for _, k := range nskThrough {
+				if strings.HasPrefix(k, par+".") && r.IntN(2) == 0 {
+					thr = k
+				}
+			}
+		}
+		pt := append(append([]int{}, nskTypes...), anyT, tyByName("map[string]string"), tyByName("map[string]interface {}"))
+		a := request{op, thr, []int{tyByName("string"), anyT, tyByName("int")}[r.IntN(3)]}
+		b := request{opNames[r.IntN(len(opNames))], par, pt[r.IntN(len(pt))]}
+		c := request{opNames[r.IntN(len(opNames))], par, pt[r.IntN(len(pt))]}
+		switch r.IntN(4) {
+		case 0:
+			return []request{b, a, c}
+		case 1:
+			return []request{a, b}
+		case 2:
+			return []request{a, b, c}
+		}
+		return []request{b, a, b}
 	case x < 35 && len(pairs) > 0:
 		// the two requests of a suffix pair, in either order
 		p := pairs[r.IntN(len(pairs))]
@@ -760,6 +811,13 @@ func main() {
 		}
 		seq("corpus", []request{{"Get", "st", locals[0]}, {"Get", "st", locals[1]}})
 		// errors are not memoised; defaults are not memoised
+		// maps with non-string keys: a request below the map, then the map itself under several types
+		str, mis, mbs, mss := tyByName("string"), tyByName("map[int]string"), tyByName("map[bool]string"), tyByName("map[string]string")
+		seq("corpus", []request{{"Get", "ports.80", str}, {"Get", "ports", mis}, {"Get", "ports", anyT}, {"Get", "ports", mss}})
+		seq("corpus", []request{{"Get", "flags.true", str}, {"Get", "flags", mbs}, {"MustGet", "flags", anyT}})
+		seq("corpus", []request{{"Get", "ports", mis}, {"Get", "ports.443", anyT}, {"Get", "ports", anyT}, {"GetOrDefault", "ports", mss}, {"Get", "ports", mis}})
+		seq("corpus", []request{{"Get", "ratio.1.5", str}, {"Get", "ratio", tyByName("map[float64]string")}, {"Get", "mixed.a", str}, {"Get", "mixed.2", str},
+			{"Get", "mixed", anyT}, {"Get", "deepn.p.1.k", str}, {"Get", "deepn.p", tyByName("map[int]interface {}")}, {"Get", "deepn", anyT}})
 		seq("corpus", []request{{"GetOrDefault", "nope", u8}, {"Get", "nope", u8}, {"MustGet", "nope", u8},
 			{"Get", "big", u8}, {"GetOrDefault", "big", u8}, {"Get", "big", tyByName("int")}})
 		// result types yaml cannot decode into without panicking: the request must fail with an
